@@ -45,8 +45,11 @@ def compose(scheme, user, password, host, port, path, query, fragment):
 POOLS = [SCHEMES, USERS, PASSWORDS, HOSTS, PORTS, PATHS, QUERIES, FRAGMENTS]
 
 
-def sample(rnd: random.Random):
-    return compose(*[rnd.choice(p) for p in POOLS])
+def sample(rnd: random.Random, ipvfuture=True):
+    t = [rnd.choice(p) for p in POOLS]
+    while not ipvfuture and t[3] == "[v1.fe:80]":
+        t[3] = rnd.choice(HOSTS)
+    return compose(*t)
 
 
 def authority_product(paths=("", "/a"), queries=("",), fragments=("",)):
